@@ -229,7 +229,7 @@ def locked_phase(pid, kinds=("ltmoveassign", "probe", "lock", "unlock")):
                     orc.step(i, ln, got)
                 except (ValueError, IndexError, KeyError):
                     break
-            mine = [f for f in orc.fails if f["property"] == pid]
+            mine = [f for f in orc.fails if f["property"] == pid or (pid == "C06" and f["property"] == "C09")]   # C06: "exposes every stored element"
             if info["cpp_rc"] == -999 and not mine and not bad:
                 mine = [{"property": pid, "op_index": len(cpp), "op": lines[len(cpp)] if len(cpp) < len(lines) else "<end>",
                          "implementation_answer": "<no answer: the request hangs>", "why": "a request on the table does not return (lock still held?)"}]
